@@ -17,9 +17,7 @@ def plan(tier):
     # (kind, length): 'safe' = memory safety of every access for every string of that length; 'full' = safety + result oracle
     specs = [('small', 5), ('safe', 66)] if tier == 'quick' else [('full', 3), ('full', 5), ('full', 6), ('full', 7), ('full', 8), ('full', 9), ('safe', 12), ('safe', 40), ('safe', 66), ('safe', 70)]
     specs = [(k, l, None) for k, l in specs]
-    if tier == 'quick':
-        # the small-alphabet query is split by its first byte (7 cubes run in parallel; together they are the original query)
-        specs = [('small', 5, ord(c)) for c in 'enGB_.x'] + [s_ for s_ in specs if s_[0] != 'small']
+    # (splitting the small-alphabet query by its first byte was tried: every cube takes as long as the whole query, the time is in the table loops)
     for kind, ln, first in specs:
         q = Query('%s_string_len%d%s' % (kind, ln, '' if first is None else '_first%02x' % first), [H], ['LEN=%d' % ln, 'VF_LIST_CAP=8'] + (['FIRST_BYTE=%d' % first] if first is not None else []) + (['ORACLE=1'] if kind in ('full', 'small') else []) + (['SMALL_ALPHABET=1'] if kind == 'small' else []), stl='model', rt=('rt_cbmc.c', 'rt_main.c', 'rt_model.c', 'rt_str.c'), unwind=256,
                   unwindset=['strcmp.0:%d' % max(ln + 3, 68), 'strlen.0:%d' % (ln + 3), 'strstr.0:%d' % (ln + 3), 'memcpy.0:%d' % max(ln + 3, 132), 'memset.0:132'],
